@@ -95,7 +95,7 @@ class Perturb(object):
     TOOL = 3
 
     def __init__(self, seed, prob, target=None, target_delay=0.0,
-                 on_target=None):
+                 on_target=None, funcs=None):
         self.on_target = on_target
         self.rngs   = dict()
         self.seed   = seed
@@ -111,9 +111,10 @@ class Perturb(object):
         if mon is None:
             self.note = 'sys.monitoring unavailable: no LINE injection'
             return
-        funcs = [m_popen.Popen.cancel_task, m_popen.Popen._check_running,
-                 m_popen.Popen._launch_task, m_popen.Popen.work,
-                 m_popen.Popen._handle_task]
+        funcs = funcs or [m_popen.Popen.cancel_task,
+                          m_popen.Popen._check_running,
+                          m_popen.Popen._launch_task, m_popen.Popen.work,
+                          m_popen.Popen._handle_task]
         if target:
             fname, pattern = TARGETS[target]
             fn = getattr(m_popen.Popen, fname)
@@ -237,6 +238,17 @@ def gen_case(rng, spawner='POPEN'):
             t.update({'cancel': 'at_target', 'cancel_at': None, 'timeout': 0.0})
             if t['ending'] == 'long' and target.startswith('check_'):
                 t.update({'ending': 'ok', 'dur': 0.05})
+    if spawner == 'NOOP':
+        # the intake and the collector thread of the NOOP executor share the
+        # pending list: many small bulks while earlier tasks are collected
+        n = rng.randint(4, 10)
+        while len(tasks) < n:
+            tasks.append({'uid': 't.%d' % len(tasks), 'ending': 'ok',
+                          'dur': rng.choice([0, 0.02, 0.05, 0.1]), 'code': 0,
+                          'sig': 'TERM', 'cancel': None, 'cancel_at': None,
+                          'timeout': 0.0, 'poison': None, 'bulk': 0})
+        for t in tasks:
+            t['bulk'] = rng.randint(0, 7)
     target_delay = rng.choice([0.02, 0.06, 0.15])
     if target and target.startswith('cancel_') and rng.random() < 0.7:
         # the cancel handler is delayed at the targeted line: make the
@@ -291,6 +303,19 @@ class ExecSim(object):
         m_popen.sp   = _SpProxy(self)
         m_ebase.time = _ScaledTime()
 
+        self.perturb = None
+        if case['spawner'] == 'NOOP' and case.get('perturb'):
+            # the NOOP executor's intake (work) and its collector thread share
+            # the list of pending tasks: perturb both.  The collector is ONE
+            # long-running frame started by the constructor: instrument its
+            # code before that (a running frame picks instrumentation up late)
+            import radical.pilot.agent.executing.noop as m_noop
+            self.perturb = Perturb(case['seed'], 0.5,
+                                   funcs=[m_noop.NOOP._collect,
+                                          m_noop.NOOP.work])
+            if self.perturb.note:
+                self.notes.append(self.perturb.note)
+
         self.ex   = Executor(self.env, start=False)
         comp      = self.ex.comp
         self.comp = comp
@@ -298,7 +323,6 @@ class ExecSim(object):
             comp._delay = 0.02
         self._install_poison(comp)
 
-        self.perturb = None
         if case['spawner'] == 'POPEN' and \
                 (case.get('perturb') or case.get('target')):
             self.perturb = Perturb(case['seed'], case.get('perturb', 0.0),
@@ -431,7 +455,8 @@ class ExecSim(object):
         events = list()
         for b in sorted({t['bulk'] for t in case['tasks']}):
             uids = [t['uid'] for t in case['tasks'] if t['bulk'] == b]
-            events.append((0.15 * b, 'bulk', uids))
+            gap = 0.15 if case['spawner'] != 'NOOP' else 0.037
+            events.append((gap * b, 'bulk', uids))
             for t in case['tasks']:
                 if t['bulk'] == b and t['cancel_at'] is not None:
                     events.append((0.15 * b + t['cancel_at'], 'cancel',
